@@ -46,6 +46,37 @@ Proof. induction st as [|u st IH]; cbn.
         intros Heq. rewrite Heq, str_eqb_refl in E. discriminate.
       * exact IH. Qed.
 
+(* ------------------------------------------------------------------ credential change *)
+Lemma write_names x st y : lookup (uname x) st = Some y -> map uname (write x st) = map uname st.
+Proof. induction st as [|u st IH]; cbn; [discriminate|].
+  destruct (str_eqb (uname u) (uname x)) eqn:E; cbn.
+  - intros _. apply str_eqb_eq in E. rewrite E. reflexivity.
+  - intros Hl. rewrite (IH Hl). reflexivity. Qed.
+
+Lemma write_in x st z : In z (write x st) -> z = x \/ In z st.
+Proof. induction st as [|u st IH]; cbn.
+  - intros [<-|[]]. left; reflexivity.
+  - destruct (str_eqb (uname u) (uname x)); cbn.
+    + intros [<-|Hin]; [left; reflexivity|right; right; exact Hin].
+    + intros [<-|Hin]; [right; left; reflexivity|]. destruct (IH Hin) as [->|H']; [left; reflexivity|right; right; exact H']. Qed.
+
+Lemma change_keeps_wf st n c : store_wf st -> store_wf (change_password st n c).
+Proof.
+  intros [Hlow Hnd]. unfold change_password. destruct (lookup n st) as [usr|] eqn:El; [|split; assumption].
+  destruct (lookup_some _ _ _ El) as [Hin Hn]. split.
+  - intros z Hz. apply write_in in Hz. destruct Hz as [->|Hz]; [cbn [uname]; apply Hlow; exact Hin|apply Hlow; exact Hz].
+  - rewrite (write_names _ st usr); [exact Hnd|]. cbn [uname]. rewrite Hn. exact El.
+Qed.
+
+Lemma change_lookup st n c m :
+  lookup m (change_password st n c) =
+  match lookup n st with
+  | Some usr => if str_eqb n m then Some {| uname := uname usr; upass := c; uperms := uperms usr |} else lookup m st
+  | None => lookup m st
+  end.
+Proof. unfold change_password. destruct (lookup n st) as [usr|] eqn:El; [|reflexivity].
+  rewrite lookup_write. cbn [uname]. destruct (lookup_some _ _ _ El) as [_ ->]. reflexivity. Qed.
+
 (* ------------------------------------------------------------------ the verdict depends on the looked-up record only *)
 Definition verdict (H : hashes) (plaintext : bool) (o : option user) (u p : str) : bool :=
   if is_empty u || is_empty p then false else
@@ -279,6 +310,19 @@ Lemma mixed_case_refuted' H : hash_laws H ->
     cred_matches H true (classify (upass usr)) p /\ permitted usr = true /\
     NoDup (map uname st) /\ fst (validate H true st u p) = false.
 Proof. intros (A & B & C & D). apply mixed_case_refuted; assumption. Qed.
+
+(* after a credential change the verdict for that user is decided by the NEW stored credential (and the
+   user's unchanged permissions); everybody else is unaffected *)
+Lemma change_decides H pt st n c usr u p : hash_laws H -> store_wf st -> lookup n st = Some usr ->
+  (fst (validate H pt (change_password st n c) u p) = true <->
+   if str_eqb n (lower u)
+   then u <> [] /\ p <> [] /\ cred_matches H pt (classify c) p /\ permitted usr = true
+   else fst (validate H pt st u p) = true).
+Proof.
+  intros (A & B & C & D) Hwf El. rewrite !fst_validate, change_lookup, El.
+  destruct (str_eqb n (lower u)); [|reflexivity].
+  rewrite (verdict_some_iff H A). cbn [upass]. unfold permitted, has_perm. cbn [uperms]. reflexivity.
+Qed.
 
 (* the laws are satisfiable: the stand-in used by the correspondence run satisfies them *)
 Lemma toy_laws : hash_laws toy.
